@@ -56,6 +56,7 @@ def _case(draw):
             # a north-up raster: the y axis (or the x axis) stored descending, rows / columns of the field stored accordingly
             "descending": draw(st.sampled_from(["none", "none", "y", "x", "xy"]))}
     case["level"] = draw(st.integers(0, case["stack"] - 1))
+    case["unstacked"] = draw(st.integers(0, 2)) == 0
     case["neg_level"] = draw(st.integers(0, 3)) == 0  # the same slice addressed from the top (level -1 = the uppermost one)
     return case
 
@@ -198,6 +199,10 @@ def check_case(case):
         F = np.stack([f * (1.0 if k == lvl else 0.5) + (0.0 if k == lvl else 0.125) for k in range(st_)])
         Z3, Y3, X3 = np.meshgrid(np.arange(st_, dtype=float), y, x, indexing="ij")
         grid = (X3, Y3, Z3)
+        if case.get("unstacked"):
+            # horizontal coordinates given once for all levels (2-D meshes or 1-D vectors) next to the 3-D field
+            grid = (X, Y, np.arange(st_, dtype=float)) if case["coords"] == "2d" else (x, y, np.arange(st_, dtype=float))
+            out.label("3-D-field-with-unstacked-coordinates", "nz==ny" if st_ == ny else "nz==nx" if st_ == nx else "nz-distinct")
     A = case["dx"] * case["dy"]
     vals = np.sort(f.ravel())[::-1]
     cs = np.cumsum(vals)
